@@ -2,6 +2,7 @@ package checks
 
 import (
 	"fmt"
+	"math"
 	"strings"
 
 	"verif/internal/eng"
@@ -35,6 +36,7 @@ func init() {
 		TrustedBase: []string{"internal/ref/dec.go exact comparison", "Go string comparison (byte-wise)"},
 		Assumptions: []string{"mixed-kind < and == are only subject to the negation laws", "NaN is not in the grid (the order clause is about finite numbers)"},
 		Run:         runC05,
+		Workers:     1, // one process: a memo keyed too coarsely must meet its colliding pair
 	})
 	c05Cmp = eng.NewKind(c, "cmp", judgeCmp)
 }
@@ -94,12 +96,25 @@ func buildCmpGrid() {
 	num("dbig", "9007199254740993")
 	num("9007199254740993", "9007199254740993")
 	num("9007199254740992", "9007199254740992")
+	// zeros produced by arithmetic (may carry a sign), plain spellings that coincide with string literals below
+	for _, z := range []string{"(0 * -1)", "(0 / -5)", "((1 - 1) * -3)", "(-1 * 0.0)", "round(-0.4)", "toInt(-0.5)", "(-0.0)", "(0 % -3)", "(-0 - 0)"} {
+		num(z, "0")
+	}
+	cmpData["dnegzero"] = math.Copysign(0, -1)
+	num("dnegzero", "0")
+	num("1", "1")
+	num("10", "10")
+	num("9", "9")
+	num("1e0", "1")
 	cmpGrid = append(cmpGrid, gval{Expr: "(1/0)", Kind: "numx"}, gval{Expr: "(-1/0)", Kind: "numx"})
 	strs := []string{"", "a", "b", "ab", "a ", "A", "1", "10", "9", "é", "中", "aa", " ", "1.0", "true", "null", "b\x00", "\xff"}
 	for i, s := range strs {
 		name := fmt.Sprintf("s%d", i)
 		cmpData[name] = s
 		cmpGrid = append(cmpGrid, gval{Expr: name, Kind: "str", Str: s})
+	}
+	for _, lit := range []string{"1", "10", "9", "1.0", "1e0", "0", "true", "null"} {
+		cmpGrid = append(cmpGrid, gval{Expr: "'" + lit + "'", Kind: "str", Str: lit})
 	}
 	cmpGrid = append(cmpGrid, gval{Expr: "'a'", Kind: "str", Str: "a"}, gval{Expr: "\"ab\"", Kind: "str", Str: "ab"}, gval{Expr: "('a'+'b')", Kind: "str", Str: "ab"})
 	cmpGrid = append(cmpGrid, gval{Expr: "true", Kind: "bool", Bool: true}, gval{Expr: "false", Kind: "bool", Bool: false}, gval{Expr: "(1<2)", Kind: "bool", Bool: true})
